@@ -402,6 +402,9 @@ pub fn run_group(g: &dyn Group, cfg: &RunCfg) -> Report {
                     let m = model_outputs_for(g, &cfg.model_bin, &[small.clone()])
                         .map(|mut m| m.remove(0))
                         .unwrap_or_default();
+                    if first_mismatch(g, &small, &o.out, &m).is_none() {
+                        eprintln!("disagreement of case {} does not reproduce after shrinking; original ops {:?} impl {:?} model {:?}", i, c, outs[i].out, model_outs[i]);
+                    }
                     let at2 = first_mismatch(g, &small, &o.out, &m).unwrap_or(0);
                     rep.disagreements.push(Disagreement {
                         case: i,
